@@ -15,6 +15,7 @@ import (
 	"encoding/binary"
 	"encoding/hex"
 	"encoding/json"
+	"errors"
 	"fmt"
 	"io"
 	"net/http"
@@ -82,6 +83,7 @@ type RpcCase struct {
 	TruncK   int      `json:"trunck"`   // with Trunc > 0: number of complete client messages kept
 	Corrupt  bool     `json:"corrupt"`  // gRPC: the first frame claims to be compressed but holds garbage
 	Noise    bool     `json:"noise"`    // the client messages carry incompressible bytes (field by) instead of letters
+	WsNoBody bool     `json:"wsnobody"` // ws: the body-less binding /wn/...: no frame is sent, the single (empty) message is the URL
 	WsFrag   int      `json:"wsfrag"`   // ws: every message is sent as continuation frames of at most this many bytes (0 = one frame)
 	ReqCT    string   `json:"reqct"`    // http: Content-Type of a request WITHOUT a body (the one message is the empty message)
 	ExactRep bool     `json:"exactrep"` // send sizes are exact wire sizes of the replies in the case's codec
@@ -358,7 +360,13 @@ func detailsFor(n int) []proto.Message {
 	return out
 }
 
+// raw (non-status) errors a handler may return: the client sees Unknown with the error's text
+var rawErrors = map[int]error{1001: io.EOF, 1002: context.Canceled, 1003: errors.New("plain failure, not a status")}
+
 func mkStatus(st Step) error {
+	if e, ok := rawErrors[st.Code]; ok {
+		return e
+	}
 	s := status.New(codes.Code(uint32(st.Code)), statusText(st.Msg))
 	if st.Det > 0 && st.Code != 0 {
 		p := s.Proto()
@@ -394,7 +402,8 @@ func testService() ServiceSpec {
 	}
 	both := func(path string) *annotations.HttpRule { // POST /t/x and WEBSOCKET /w/x
 		r := body("POST", "/t/"+path)
-		r.AdditionalBindings = []*annotations.HttpRule{body("WEBSOCKET", "/w/"+path)}
+		// (and a WebSocket binding without a body: the one request travels in the URL)
+		r.AdditionalBindings = []*annotations.HttpRule{body("WEBSOCKET", "/w/"+path), httpRule("WEBSOCKET", "/wn/"+path)}
 		return r
 	}
 	return ServiceSpec{Name: "T", Methods: []MethodSpec{
@@ -1007,6 +1016,9 @@ func (e *rpcEnv) statusFrom(code int, msg string, details int, detEqual bool, pr
 	for _, st := range e.c.Script {
 		if st.Op == "ret" {
 			so.MsgEqual = msg == statusText(st.Msg)
+			if re, ok := rawErrors[st.Code]; ok {
+				so.MsgEqual = msg == re.Error()
+			}
 		}
 	}
 	return so
